@@ -497,10 +497,33 @@ def marker_codec(ctx, s):
     for b, info in dn.term.items():
         if info["kind"] == "assert" and info["mk"] == "BoundsCheck" and info["index"][0] == "const":
             idxs.add(info["index"][1])
+    from .recheck import builder_is_lossy
+    trunc_feasible, _pad = builder_is_lossy(ctx, s, "key_naddr_index")
+    froms = set()
+    for b, info in dn.calls():
+        v = info["value"]
+        if v[0] == "slicefrom" and v[2][0] == "const":
+            froms.add(v[2][1])
     want_ranges = set()
+    ok = False
     if len(offs) >= 4 and padlen:
-        want_ranges = {(offs[0], offs[1]), (offs[1], offs[2]), (offs[3], offs[3] + padlen)}
-    ok = bool(want_ranges) and want_ranges <= ranges and (offs[2] in idxs if len(offs) >= 3 else False)
+        want_ranges = {(offs[0], offs[1]), (offs[1], offs[2])}
+        if trunc_feasible:
+            # the builder cuts d at padlen: a fixed-width field
+            want_ranges.add((offs[3], offs[3] + padlen))
+            ok = want_ranges <= ranges and offs[2] in idxs
+        else:
+            # the builder stores a longer d whole: the decoder must take the whole remainder, and may strip
+            # padding (truncate to the length byte) only when the remainder is not longer than the padded width
+            ok = want_ranges <= ranges and offs[2] in idxs and offs[3] in froms and \
+                not any(lo == offs[3] for lo, hi in ranges)
+            if ok:
+                tr = [(b, i) for b, i in dn.calls() if (i["callee"] or "").endswith("::truncate")]
+                for b, i in tr:
+                    facts = ctx.E.facts(dump, b)
+                    guarded = any(f[0] == "le" and f[1][0] == -padlen and len(f[1][1]) == 1 and f[1][1][0][1] == 1 for f in facts)
+                    if not guarded:
+                        ok = False
     wconv = {k.replace("to_", "from_") for w, k in prefix if k.startswith("to_")}
     ok_endian = wconv <= conv and bool(wconv)
     s.add("S-LAYOUT", dump, "naddr-key-codec", "kind|author|dlen|d", dump.sp, PROVED if (ok and ok_endian) else VIOLATION,
